@@ -305,7 +305,45 @@ func runHist13(h *Hist13, x *evalCtx) hist13Result {
 		reused := map[string]interface{}{}
 		rawT := map[string]*types.Env{}
 		rawV := map[string]*val.Env{}
+		// "inplace": ONE host object per typing class whose contents are overwritten before
+		// every use (what a host does with a long-lived request struct / map): anything
+		// cached by the identity of the host object sees stale contents
+		inplaceMap := map[string]map[string]interface{}{}
+		inplaceStd, inplaceAlt := &EnvStruct{}, &EnvStruct2{}
 		carrier := func(kind, name string, forCompile bool) (interface{}, string, interface{}) {
+			if kind == "inplace" {
+				fresh := envMakers[name]()
+				switch f := fresh.(type) {
+				case map[string]interface{}:
+					class := "other:" + name
+					if st := sameTyped[name]; len(st) > 0 {
+						class = st[0]
+					}
+					m, ok := inplaceMap[class]
+					if !ok {
+						m = map[string]interface{}{}
+						inplaceMap[class] = m
+					} else {
+						res.Reused++
+					}
+					for k := range m {
+						delete(m, k)
+					}
+					for k, v := range f {
+						m[k] = v
+					}
+					return m, "", nil
+				case *EnvStruct:
+					*inplaceStd = *f
+					res.Reused++
+					return inplaceStd, "", nil
+				case *EnvStruct2:
+					*inplaceAlt = *f
+					res.Reused++
+					return inplaceAlt, "", nil
+				}
+				return fresh, "", nil
+			}
 			switch kind {
 			case "reused":
 				v, ok := reused[name]
@@ -575,7 +613,7 @@ func genHist13(r *rng) *Hist13 {
 	}
 	n := 6 + r.intn(30)
 	var compiles []int
-	carriers := []string{"fresh", "reused", "reused", "raw"}
+	carriers := []string{"fresh", "reused", "inplace", "raw"}
 	for len(h.Ops) < n {
 		i := len(h.Ops)
 		switch c := r.intn(12); {
@@ -889,7 +927,7 @@ func (c13) Candidates(rf *ReplayFile) []*ReplayFile {
 		mk(n)
 	}
 	for i, op := range h.Ops {
-		if op.Carrier == "reused" || op.Carrier == "raw" {
+		if op.Carrier == "reused" || op.Carrier == "raw" || op.Carrier == "inplace" {
 			n := clone()
 			n.Ops[i].Carrier = "fresh"
 			mk(n)
